@@ -99,3 +99,54 @@ def axis_routing(ctx: Ctx) -> None:
                     (ctx.ok if good else ctx.bad)(R, f, node, 'Bus label added as a level on the Quilt axis' if good else
                                                   f'for axis {0 if ax0 else 1} the Bus label is added with `{norm(node)[:60]}`', key=f'Quilt.{m}:level@axis{0 if ax0 else 1}:{",".join(k or "" for k in kw)}')
     ctx.require(n >= 12, 'Quilt extraction sites')
+
+
+def option_consulted(ctx: Ctx) -> None:
+    R = 'I.quilt-retain-labels-consulted'
+    ctx.rule(R, 'a Quilt built with retain_labels=True presents the Bus label as an outer level on its own axis in every Frame / Series it hands out: in each method of '
+             'Quilt that branches on self._retain_labels, every path to a value-returning exit (or, for the axis-label builder, to the normal end) has passed a test of '
+             'that option; an exit reached without consulting it returns the same labels whether or not the option is set', floor=2)
+    from sfa import flow
+    prog = ctx.prog
+    k = prog.cls('Quilt')
+    n = 0
+    for defs in k.method_defs.values():
+        for f in defs:
+            sn = f.self_name()
+            if sn is None or f.name == '__init__':
+                continue
+
+            def mentions(e: ast.AST) -> bool:
+                return any(isinstance(x, ast.Attribute) and x.attr == '_retain_labels' and isinstance(x.value, ast.Name) and x.value.id == sn for x in ast.walk(e))
+            if not any(isinstance(i, (ast.If, ast.IfExp, ast.While)) and mentions(i.test) for i in walk_local(f.node)):
+                continue
+
+            class C(flow.Client):
+                for_at_least_once = True
+
+                def __init__(self):
+                    self.bad: tp.List[ast.AST] = []
+
+                def join(self, a, b):
+                    return a and b
+
+                def refine(self, atom, st, truth):
+                    return True if mentions(atom) else st
+
+                def on_return(self, s, st):
+                    if not st and getattr(s, 'value', None) is not None:
+                        self.bad.append(s)
+            c = C()
+            ex = flow.Engine(c).run(f.node.body, False)
+            n += 1
+            key = f'Quilt.{f.name}'
+            returns_value = any(isinstance(r, ast.Return) and r.value is not None for r in walk_local(f.node))
+            if not returns_value and ex.fall is False:
+                ctx.bad(R, f, f.node, f'{f.name} can reach its normal end without having tested self._retain_labels: the axis labels are built the same way whether or not '
+                        'Bus labels are retained', key=key)
+            elif c.bad:
+                ctx.bad(R, f, c.bad[0], f'`{norm(c.bad[0])[:60]}` is reached on a path that never tested self._retain_labels: with retain_labels=True this exit hands out '
+                        'labels without the Bus-label level (the export disagrees with Quilt.index / Quilt.columns)', key=key)
+            else:
+                ctx.ok(R, f, f.node, 'every value-returning path consults the option', key=key)
+    ctx.require(n >= 2, 'Quilt methods branching on _retain_labels')
